@@ -427,3 +427,134 @@ Qed.
 
 Theorem compatibleb_sound ps : compatibleb ps = true -> compatible ps.
 Proof. intros H a p b E q Iq. apply (compatibleb_aux_sound ps [] H a p b E q). exact Iq. Qed.
+
+(* ------------------------------------------------------------------------------------------ *)
+(* Which tables the macro accepts (C18): the diagnostics of the fold, characterised declaratively. *)
+Definition same_sig (a b : list rfield) : bool :=
+  Nat.eqb (length a) (length b) && match zip_mismatch a b with [] => true | _ => false end
+  && Bool.eqb (is_payload_marked a) (is_payload_marked b).
+
+(* the claim at this position breaks no rule, given the claims before it *)
+Definition claim_ok (before : list pair) (p : pair) : Prop :=
+  snd (rd_new (fst p) (snd p)) = [] /\
+  (forall q, In q before -> rid_of q = rid_of p -> excludes (rm_on (fst q)) (rm_on (fst p)) = false) /\
+  (forall q, hd_error (claimants before (rid_of p)) = Some q -> same_sig (payload_of (fst q)) (payload_of (fst p)) = true).
+
+Definition valid_claims (ps : list pair) : Prop := forall a p b, ps = a ++ p :: b -> claim_ok a p.
+
+Lemma rd_new_diags_indep m h1 h2 : snd (rd_new m h1) = snd (rd_new m h2).
+Proof. unfold rd_new. destruct (as_data_field m). reflexivity. Qed.
+
+Lemma rd_new_payload_indep m h : rd_payload (fst (rd_new m h)) = payload_of m.
+Proof. unfold payload_of, rd_new. destruct (as_data_field m). reflexivity. Qed.
+
+Lemma step_diags_grow t ds p : exists extra, snd (table_step (t, ds) p) = ds ++ extra.
+Proof.
+  destruct p as [m hid]. unfold table_step. destruct (find_rd t (reply_id_of hid)) as [ex|].
+  - destruct (existsb _ (rd_handlers ex)); [eexists; reflexivity|]. destruct (rd_merge ex m). eexists; reflexivity.
+  - destruct (rd_new m hid). eexists; reflexivity.
+Qed.
+
+Lemma fold_diags_grow : forall ps t ds, exists extra, snd (fold_left table_step ps (t, ds)) = ds ++ extra.
+Proof.
+  induction ps as [|p r IH]; intros t ds; cbn [fold_left]; [exists []; rewrite app_nil_r; reflexivity|].
+  destruct (table_step (t, ds) p) as [t' ds'] eqn:TS. destruct (step_diags_grow t ds p) as (e1 & E1). rewrite TS in E1. simpl in E1.
+  destruct (IH t' ds') as (e2 & E2). exists (e1 ++ e2). rewrite E2, E1, app_assoc. reflexivity.
+Qed.
+
+Lemma app_eq_self_nil {A} (l e : list A) : l ++ e = l -> e = [].
+Proof. intros H. rewrite <- (app_nil_r l) in H at 2. apply app_inv_head in H. exact H. Qed.
+
+(* one step adds no diagnostic iff the claim is ok (given the invariant for the claims so far) *)
+Lemma step_no_diag_iff ps t ds p : Inv ps t ->
+  (snd (table_step (t, ds) p) = ds <-> claim_ok ps p).
+Proof.
+  intros I. destruct p as [m hid]. unfold claim_ok, table_step. cbn [fst snd].
+  set (rid := reply_id_of hid). change (rid_of (m, hid)) with rid.
+  destruct (find_rd t rid) as [ex|] eqn:F.
+  - destruct (find_rd_some _ _ _ F) as [Iex Eex].
+    pose proof (inv_handlers _ _ I ex Iex) as H. rewrite Eex in H.
+    destruct (inv_payload _ _ I ex Iex) as (q0 & HQ & PQ). rewrite Eex in HQ.
+    destruct (existsb (fun h : string * reply_on => excludes (snd h) (rm_on m)) (rd_handlers ex)) eqn:EX.
+    + split.
+      * intros D. cbn [snd] in D. apply app_eq_self_nil in D. rewrite H in D.
+        destruct (claimants ps rid); [discriminate HQ | discriminate D].
+      * intros (_ & NE & _). exfalso. rewrite H in EX. apply existsb_exists in EX. destruct EX as (h & Ih & Eh).
+        apply in_map_iff in Ih. destruct Ih as (q & <- & Iq). apply filter_In in Iq. destruct Iq as [Iq Eq]. apply String.eqb_eq in Eq.
+        simpl in Eh. rewrite (NE q Iq Eq) in Eh. discriminate.
+    + unfold rd_merge. destruct (rd_new m (rd_handler_id ex)) as [n dn] eqn:RN. cbn [snd].
+      assert (Edn : dn = snd (rd_new m hid)) by (rewrite (rd_new_diags_indep m hid (rd_handler_id ex)), RN; reflexivity).
+      assert (Epn : rd_payload n = payload_of m) by (rewrite <- (rd_new_payload_indep m (rd_handler_id ex)), RN; reflexivity).
+      split.
+      * intros D. apply app_eq_self_nil in D. apply app_eq_nil in D. destruct D as [D1 D2]. apply app_eq_nil in D2. destruct D2 as [D2 D3].
+        apply app_eq_nil in D3. destruct D3 as [D3 D4].
+        split; [rewrite <- Edn; exact D1|]. split.
+        -- intros q Iq Eq. rewrite H in EX.
+           destruct (excludes (rm_on (fst q)) (rm_on m)) eqn:E; [|reflexivity]. exfalso.
+           assert (existsb (fun h : string * reply_on => excludes (snd h) (rm_on m)) (map claim_of (claimants ps rid)) = true).
+           { apply existsb_exists. exists (claim_of q). split; [apply in_map; apply filter_In; split; [exact Iq | rewrite Eq; apply String.eqb_refl] | exact E]. }
+           congruence.
+        -- intros q Hq. rewrite HQ in Hq. injection Hq as <-. unfold same_sig. rewrite <- PQ, <- Epn.
+           destruct (Nat.eqb (length (rd_payload ex)) (length (rd_payload n))); [|discriminate D2]. rewrite D3.
+           destruct (Bool.eqb (is_payload_marked (rd_payload ex)) (is_payload_marked (rd_payload n))); [reflexivity | discriminate D4].
+      * intros (D1 & NE & SS). specialize (SS q0 HQ). unfold same_sig in SS. rewrite <- PQ, <- Epn in SS.
+        apply andb_true_iff in SS. destruct SS as [SS M]. apply andb_true_iff in SS. destruct SS as [L Z]. rewrite L, M, Edn, D1. simpl.
+        destruct (zip_mismatch (rd_payload ex) (rd_payload n)); [rewrite app_nil_r; reflexivity | discriminate Z].
+  - pose proof (find_rd_none _ _ F) as Nn.
+    assert (CN : claimants ps rid = []).
+    { apply claimants_nil_iff. intros q Iq E. destruct (inv_cover _ _ I q Iq) as (rd & A & B). apply (Nn rd A). congruence. }
+    destruct (rd_new m hid) as [n dn] eqn:RN. cbn [snd]. split.
+    + intros D. apply app_eq_self_nil in D. split; [exact D|]. split.
+      * intros q Iq Eq. exfalso. pose proof (proj1 (claimants_nil_iff ps rid) CN q Iq) as Hn. exact (Hn Eq).
+      * intros q Hq. rewrite CN in Hq. discriminate.
+    + intros (D & _ & _). rewrite D, app_nil_r. reflexivity.
+Qed.
+
+Lemma valid_claims_prefix pre ps : valid_claims (pre ++ ps) -> valid_claims pre.
+Proof. intros V a p b E. apply (V a p (b ++ ps)). rewrite E, <- app_assoc. reflexivity. Qed.
+
+Lemma valid_compatible ps : valid_claims ps -> compatible ps.
+Proof. intros V a p b E q Iq Eq. destruct (V a p b E) as (_ & NE & _). apply NE; auto. Qed.
+
+(* the fold reports no diagnostic iff every claim is ok *)
+Lemma fold_no_diag_iff : forall ps pre t ds, Inv pre t ->
+  (snd (fold_left table_step ps (t, ds)) = ds <-> (forall a p b, ps = a ++ p :: b -> claim_ok (pre ++ a) p)).
+Proof.
+  induction ps as [|p r IH]; intros pre t ds I; cbn [fold_left].
+  - split; [intros _ a p b E; destruct a; discriminate | reflexivity].
+  - destruct (table_step (t, ds) p) as [t' ds'] eqn:TS.
+    pose proof (step_no_diag_iff pre t ds p I) as S. rewrite TS in S. cbn [snd] in S.
+    destruct (step_diags_grow t ds p) as (e1 & E1). rewrite TS in E1. cbn [snd] in E1.
+    destruct (fold_diags_grow r t' ds') as (e2 & E2).
+    split.
+    + intros D. rewrite E2, E1, <- app_assoc in D. apply app_eq_self_nil in D. apply app_eq_nil in D. destruct D as [D1 D2]. subst e1 e2.
+      rewrite app_nil_r in E1. subst ds'. rewrite app_nil_r in E2.
+      assert (OKp : claim_ok pre p) by (apply S; reflexivity).
+      assert (I' : Inv (pre ++ [p]) t').
+      { replace t' with (fst (table_step (t, ds) p)) by (rewrite TS; reflexivity). apply table_step_inv; [exact I|].
+        destruct OKp as (_ & NE & _). exact NE. }
+      pose proof (proj1 (IH (pre ++ [p]) t' ds I') E2) as R.
+      intros a q b E. destruct a as [|x a]; simpl in E; injection E as <- E.
+      * rewrite app_nil_r. exact OKp.
+      * specialize (R a q b E). rewrite <- app_assoc in R. exact R.
+    + intros V. assert (OKp : claim_ok pre p) by (specialize (V [] p r eq_refl); rewrite app_nil_r in V; exact V).
+      apply S in OKp. subst ds'. apply app_eq_self_nil in OKp. subst e1. rewrite app_nil_r in *.
+      assert (I' : Inv (pre ++ [p]) t').
+      { replace t' with (fst (table_step (t, ds) p)) by (rewrite TS; reflexivity). apply table_step_inv; [exact I|].
+        specialize (V [] p r eq_refl). rewrite app_nil_r in V. destruct V as (_ & NE & _). exact NE. }
+      apply (IH (pre ++ [p]) t' ds I'). intros a q b E. specialize (V (p :: a) q b). rewrite <- app_assoc. apply V. rewrite E. reflexivity.
+Qed.
+
+Theorem table_accepted_iff ms :
+  snd (build_table ms) = [] <-> (flat_map field_attr_diags ms = [] /\ valid_claims (all_pairs ms)).
+Proof.
+  unfold build_table. set (d0 := flat_map field_attr_diags ms).
+  destruct (fold_diags_grow (all_pairs ms) [] d0) as (e & E). split.
+  - intros H. rewrite E in H. apply app_eq_nil in H. destruct H as [H0 He]. split; [exact H0|].
+    subst e. rewrite app_nil_r in E. intros a p b Eq. apply (proj1 (fold_no_diag_iff (all_pairs ms) [] [] d0 inv_nil) E a p b Eq).
+  - intros (H0 & V). rewrite H0 in *. apply (fold_no_diag_iff (all_pairs ms) [] [] [] inv_nil). intros a p b Eq. simpl. exact (V a p b Eq).
+Qed.
+
+(* accepted tables satisfy the hypothesis of the routing theorems *)
+Corollary accepted_table_is_compatible ms : snd (build_table ms) = [] -> compatible (all_pairs ms).
+Proof. intros H. apply valid_compatible. apply (proj1 (table_accepted_iff ms) H). Qed.
